@@ -46,6 +46,20 @@ def run(ctx):
                 rule_arm0(ctx, M, u)
         from . import c01
         c01.live_premises(ctx, M, units, "C20.LIVE")
+        if cfg != "core":
+            from . import c11, c12, grouplike
+            with ctx.renamed({"C11.*": "C20.COVER", "C12.*": "C20.COVER"}):
+                for gname in ("future_group", "stream_group"):
+                    grouplike.rule_insert(ctx, M, gname, "C20.COVER")
+                    grouplike.rule_remove(ctx, M, gname, "C20.COVER")
+                gu = grouplike.group_unit(M, "future_group")
+                if gu is not None:
+                    c11.rule_done(ctx, M, gu)
+                gu = grouplike.group_unit(M, "stream_group")
+                if gu is not None:
+                    c12.rule_endm(ctx, M, gu)
+                    c12.rule_drain(ctx, M, gu)
+                    c12.rule_item(ctx, M, gu)
         prims.check_indexer(ctx, M, "C20.ROT")
         if cfg == "std":
             prims.check_bits(ctx, M, "C20.BITS0")
